@@ -191,7 +191,7 @@ func (fc *FuncContract) Spec() *sym.FnSpec {
 	return &sym.FnSpec{
 		Requires: func(fx *sym.FnExec, st *sym.State, args []sym.Value) {
 			// receivers and pointer params: contracts are about calls on non-nil receivers unless stated otherwise
-			env := &Env{Fx: fx, St: st, Old: st, Vars: fc.vars(fx, args, nil), Set: fc.Set, Skol: skol, Owner: fc.Key}
+			env := &Env{Fx: fx, St: st, Old: st, Vars: fc.vars(fx, args, nil), Set: fc.Set, Skol: skol, Owner: fc.Key, Assume: true}
 			if fc.Fn.Signature.Recv() != nil {
 				if p, ok := args[0].(sym.PtrV); ok && !fc.Flags["nilrecv"] {
 					st.Assume(Not(p.Nil))
@@ -224,6 +224,9 @@ func (fc *FuncContract) Spec() *sym.FnSpec {
 					}
 					if l.obj != nil {
 						ls = append(ls, l)
+						if mv, ok := fx.ReadLoc(entry, l.obj, l.path).(sym.MapV); ok && mv.Obj != nil {
+							ls = append(ls, loc{mv.Obj, nil})
+						}
 					}
 				}
 				var all []*Term
@@ -298,6 +301,10 @@ func (fc *FuncContract) Apply(fx *sym.FnExec, fr *sym.Frame, fn *ssa.Function, a
 				panic(sym.Unsupported{Msg: fmt.Sprintf("%s assigns at call: %v", fc.Key, err)})
 			}
 			if l.obj == nil {
+				continue
+			}
+			if mv, ok := fx.ReadLoc(st, l.obj, l.path).(sym.MapV); ok && mv.Obj != nil {
+				fx.HavocLoc(st, mv.Obj, nil, site)
 				continue
 			}
 			fx.HavocLoc(st, l.obj, l.path, site)
@@ -380,7 +387,7 @@ func (fc *FuncContract) Apply(fx *sym.FnExec, fr *sym.Frame, fn *ssa.Function, a
 	default:
 		ret = sym.TupleV{V: rvals}
 	}
-	env2 := &Env{Fx: fx, St: st, Old: pre, Vars: fc.vars(fx, args, ret), Set: fc.Set, Owner: fc.Key + "@" + site}
+	env2 := &Env{Fx: fx, St: st, Old: pre, Vars: fc.vars(fx, args, ret), Set: fc.Set, Owner: fc.Key + "@" + site, Assume: true}
 	for i, en := range fc.Ensures {
 		if used[i] {
 			continue
@@ -518,8 +525,9 @@ func (s *Set) LoopSpecs() func(fn *ssa.Function, ord int) *sym.LoopSpec {
 			return &Env{Fx: fx, St: st, Old: old, Vars: vars, Set: s, Skol: skol, Owner: fmt.Sprintf("%s.loop%d", fc.Key, ord)}
 		}
 		ls := &sym.LoopSpec{Unroll: lc.Unroll, Bounded: lc.Bounded}
-		ls.Invariant = func(fx *sym.FnExec, fr *sym.Frame, st *sym.State, entry *sym.State) []*sym.NamedTerm {
+		ls.Invariant = func(fx *sym.FnExec, fr *sym.Frame, st *sym.State, entry *sym.State, assume bool) []*sym.NamedTerm {
 			env := mkEnv(fx, fr, st)
+			env.Assume = assume
 			var out []*sym.NamedTerm
 			for i, inv := range lc.Invariants {
 				t, err := env.Bool(inv)
